@@ -370,6 +370,13 @@ def run(ctx):
         runs += len(t["dims"])
         for mm in msgs:
             res.add_violation(dict(driver="loop", **t, message=mm, sig={}))
+    # checkpoint histories: the solver is copied (deepcopy / pickle) mid-run and the search continued on copy and original
+    from mc import copyrun
+    ctasks = copyrun.tasks(th)
+    for t, msgs in zip(ctasks, pmap(copyrun.case_c11, ctasks, chunksize=4)):
+        runs += 3
+        for mm in msgs:
+            res.add_violation(dict(driver="copy", cfg={}, task=t, message=mm, sig={}))
     # determinism across processes / hash seeds
     here = {}
     for i, cfg in enumerate(OBJECTIVES):
@@ -407,6 +414,9 @@ def replay(rec):
         return replay_long(rec)
     if rec["driver"] == "refine":
         return refine_case(rec)
+    if rec["driver"] == "copy":
+        from mc import copyrun
+        return copyrun.case_c11(rec["task"])
     if rec["driver"] == "loop":
         return loop_case(rec)
     n = rec["n"]
